@@ -109,7 +109,7 @@ theorem matchBase_complete (env : Env) : ∀ (n : Nat) (cls name : Text),
 
 /-- what the handler sees: error_type / error_value / error_tb, as an instance frame -/
 def errorFrame (ex : Exc) : Frame :=
-  let internal := ["TypeError", "AttributeError", "NameError", "IndexError", "UnicodeDecodeError"].map String.toList
+  let internal := ["TypeError", "AttributeError", "NameError", "IndexError", "UnicodeDecodeError", "Unauthorized"].map String.toList
   let msg := if internal.contains ex.cls then [Char.ofNat 0xFFFF] else ex.msg
   .inst (.obj 0 [("error_type".toList, .str ex.cls), ("error_value".toList, .exc ex.cls msg),
                  ("error_tb".toList, .str "traceback".toList)]) []
